@@ -39,6 +39,16 @@ func Gen(t *rapid.T) Case {
 		rapid.StringOfN(rapid.RuneFrom([]rune{'.', '/', '\\', 'a', 'b', 0, ' '}), 0, 4, -1),
 	)
 	names := rapid.SliceOfN(elem, 0, 8).Draw(t, "names")
+	if rapid.IntRange(0, 14).Draw(t, "long") == 0 {
+		// lists longer than a Twalk may carry (16): the helpers are also used locally, on whole paths
+		long := rapid.SliceOfN(rapid.SampledFrom([]string{"a", "b", "c", "a.b", "..a", "x", "dir"}), 12, 40).Draw(t, "longnames")
+		k := rapid.IntRange(0, 3).Draw(t, "longlead")
+		names = nil
+		for i := 0; i < k; i++ {
+			names = append(names, "..")
+		}
+		names = append(names, long...)
+	}
 	for _, n := range names {
 		c.Names = append(c.Names, harn.B(n))
 	}
